@@ -44,6 +44,11 @@ def gen_cases(rng, tier):
                 olds = ["0001.bas", "0011.bas"]
             if olds:
                 batch.insert(0, {"arg": rng.choice(olds), "content": {"rand": rng.randint(0, 1 << 30), "len": rng.choice([0, 1, 700, 4000])}})
+        has_deleted = "spec" in base and any(sd.get("deleted") for sd in base["spec"]["sides"])
+        if rng.random() < (0.5 if has_deleted else 0.2):
+            # a name that cannot be written in the catalogue's character set (upper-case or caseless letters: the model's upper-casing is ASCII only): refused on every side, and the sides stay as they were (entries reused next to live ones included)
+            batch.insert(rng.randint(0, len(batch)), {"arg": rng.choice(["\u00c9.bas", "\u00d11.dat", "A\u00c9.txt", "\u00c9T\u00c9.BIN", "x.B\u00c9", "\u00c9\u00c9\u00c9\u00c9\u00c9\u00c9\u00c9\u00c9.bas", "\u20ac.bin"]),
+                                                     "content": {"rand": rng.randint(0, 1 << 30), "len": rng.choice([0, 1, 300, 2041, 5000])}})
         cases.append(dict(base, batch=batch, verbose=rng.random() < 0.3))
     for is_fd in (True, False):
         cases.append({"created": [{"arg": "notes.txt", "content": {"pat": "41", "len": 600}}, {"arg": "other.dat", "content": {"pat": "42", "len": 3000}}], "is_fd": is_fd, "verbose": False,
